@@ -1,0 +1,53 @@
+//go:build verif
+
+// Contracts for the deductive verifier in /verif (govc). Comments only: with
+// the build tag `verif` off the compiler never reads this file, with the tag on
+// it adds no code. Syntax: see /verif/DESIGN.md section 3.
+
+package indent
+
+// ---------------------------------------------------------------------------
+// C20: the indenting writer accounts bytes truthfully.
+//
+// cb(n, p, a, o, i, m): the number of caller bytes among the first n bytes of
+// bytes.Join(lines[i:m], prefix) as it continues a join that started at element
+// 0 -- bytes.Join writes the separator (p bytes) before every element but the
+// first. a/o are the contents and offset of the backing array of `lines`.
+//@ spec cb(n int, p int, a array[[]byte], o int, i int, m int) int = i >= m ? 0
+//@     : ((n - (i > 0 ? p : 0)) <= 0 ? 0
+//@     : ((n - (i > 0 ? p : 0)) <= len(a[o+i]) ? (n - (i > 0 ? p : 0))
+//@     : len(a[o+i]) + cb(n - (i > 0 ? p : 0) - len(a[o+i]), p, a, o, i+1, m)))
+//
+// total(a, o, k): the caller bytes in the first k elements.
+//@ spec total(a array[[]byte], o int, k int) int = k <= 0 ? 0 : total(a, o, k-1) + len(a[o+k-1])
+//
+//@ lemma totalMono(a array[[]byte], o int, k int, m int) props C20
+//@   requires 0 <= k && k <= m && (forall j int :: o <= j && j < o + m ==> len(a[j]) >= 0)
+//@   ensures  total(a, o, k) <= total(a, o, m)
+//@   induction m
+//@   trigger total(a, o, k), total(a, o, m)
+//
+//@ func actualWrittenSize props C20
+//@   requires prefix >= 0
+//@   ensures  result == cb(underlay, prefix, back(lines), off(lines), 0, len(lines))
+//@   ensures  0 <= result && (underlay >= 0 ==> result <= underlay) && result <= total(back(lines), off(lines), len(lines))
+//@   pure
+//@   safe
+//@   nowrap
+//@   uses totalMono
+//@   loop 1
+//@     invariant 0 <= actual && (underlay >= 0 ==> actual <= underlay - remain)
+//@     invariant remain <= underlay
+//@     invariant _k > 0 ==> remain > 0
+//@     invariant actual + cb(remain, prefix, back(lines), off(lines), _k, len(lines)) == cb(underlay, prefix, back(lines), off(lines), 0, len(lines))
+//@     invariant actual == total(back(lines), off(lines), _k)
+//
+//@ func (*iw).Write props C20
+//@   requires w != nil
+//@   ensures  result1 == nil ==> result == len(buf)
+//@   ensures  len(buf) == 0 ==> result == 0 && result1 == nil
+//@   ensures  result >= 0
+//
+//@ func NewWriter props C20
+//@   ensures  indent == "" ==> result == w
+//@   ensures  indent != "" ==> fresh(result)
